@@ -37,7 +37,7 @@ def run_real(template, tmpl: dict, plan: list, handler_cfg) -> dict:
             "args": list(getattr(error.value, "args", ())),
             "lineno": error.lineno, "offset": error.offset})
         return ""
-    kw = {"P": probe, "ERR": ERR}
+    kw = {"P": probe, "ERR": ERR, "translate": probe.translate}
     kw.update(RENDER_ARGS)
     try:
         if handler is not None:
